@@ -638,43 +638,90 @@ func c04ops(c *an.Ctx) {
 		if f == nil {
 			return
 		}
-		for item, want := range table {
-			cc := caseClause(f, item)
-			if cc == nil {
-				c.Bad("C04.ops", fnName+"/"+item, f.Pos(), nil, "%s has no arm for %s", fnName, item)
-				continue
-			}
-			var wrong []string
-			cnt := 0
-			armInspect(f, cc, func(m ast.Node) bool {
-				if b, ok := m.(*ast.BinaryExpr); ok && class(b.Op) {
-					cnt++
-					n++
-					if b.Op != want {
-						wrong = append(wrong, fmt.Sprintf("%s (%s)", an.Str(b), p.RelPos(b.Pos())))
+		// the arms that dispatch on the operator — in the function itself or in helpers it was split into.
+		// An arm for one operator computes with that operator only; an arm shared by several operators
+		// computes with none of them (apart from arms nested in it that single one operator out).
+		tableItems := func(cc *ast.CaseClause) []string {
+			var out []string
+			for _, e := range cc.List {
+				if id, ok := e.(*ast.Ident); ok {
+					if _, isItem := table[id.Name]; isItem {
+						out = append(out, id.Name)
 					}
+				}
+			}
+			return out
+		}
+		var clauses []*ast.CaseClause
+		an.InspectOwn(f, func(m ast.Node) bool {
+			if cc, ok := m.(*ast.CaseClause); ok && len(tableItems(cc)) > 0 {
+				clauses = append(clauses, cc)
+			}
+			return true
+		})
+		type tally struct {
+			cnt   int
+			wrong []string
+			pos   token.Pos
+		}
+		tallies := map[string]*tally{}
+		for item := range table {
+			tallies[item] = &tally{}
+		}
+		for _, cc := range clauses {
+			items := tableItems(cc)
+			want := token.ILLEGAL
+			if len(items) == 1 && len(cc.List) == 1 {
+				want = table[items[0]]
+			}
+			for _, item := range items {
+				if !tallies[item].pos.IsValid() {
+					tallies[item].pos = cc.Pos()
+				}
+			}
+			note := func(isOp bool, op token.Token, text string) {
+				for _, item := range items {
+					t := tallies[item]
+					if want != token.ILLEGAL {
+						t.cnt++
+					}
+					if op != want {
+						t.wrong = append(t.wrong, text)
+					}
+				}
+			}
+			armInspect(f, cc, func(m ast.Node) bool {
+				if inner, ok := m.(*ast.CaseClause); ok && inner != cc && len(tableItems(inner)) > 0 {
+					return false // an arm of its own
+				}
+				if b, ok := m.(*ast.BinaryExpr); ok && class(b.Op) {
+					n++
+					note(true, b.Op, fmt.Sprintf("%s (%s)", an.Str(b), p.RelPos(b.Pos())))
 				}
 				// compound assignments (r += b, n *= 2 …) are operations too: a result "corrected" after the
 				// operator was applied is no longer what the Go operator computes
 				if as, ok := m.(*ast.AssignStmt); ok {
 					if op, isCompound := compoundOp[as.Tok]; isCompound && class(op) {
-						cnt++
-						if op != want {
-							wrong = append(wrong, fmt.Sprintf("%s (%s)", an.StmtStr(as), p.RelPos(as.Pos())))
-						}
+						note(true, op, fmt.Sprintf("%s (%s)", an.StmtStr(as), p.RelPos(as.Pos())))
 					}
 				}
 				if inc, ok := m.(*ast.IncDecStmt); ok && class(token.ADD) {
-					wrong = append(wrong, fmt.Sprintf("%s (%s)", an.StmtStr(inc), p.RelPos(inc.Pos())))
+					note(true, token.ILLEGAL+1, fmt.Sprintf("%s (%s)", an.StmtStr(inc), p.RelPos(inc.Pos())))
 				}
 				return true
 			})
-			if len(wrong) > 0 {
-				c.Bad("C04.ops", fnName+"/"+item, cc.Pos(), nil, "the %s arm of %s computes %v — not the Go operator `%s` that %s denotes", item, fnName, wrong, want, item)
-			} else if cnt == 0 {
-				c.Bad("C04.ops", fnName+"/"+item, cc.Pos(), nil, "the %s arm of %s contains no `%s` operation", item, fnName, want)
-			} else {
-				c.OK("C04.ops", fnName+"/"+item, cc.Pos(), "all %d operations in the arm are `%s`", cnt, want)
+		}
+		for item, want := range table {
+			t := tallies[item]
+			switch {
+			case !t.pos.IsValid():
+				c.Bad("C04.ops", fnName+"/"+item, f.Pos(), nil, "%s has no arm for %s", fnName, item)
+			case len(t.wrong) > 0:
+				c.Bad("C04.ops", fnName+"/"+item, t.pos, nil, "the %s arm of %s computes %v — not the Go operator `%s` that %s denotes", item, fnName, t.wrong, want, item)
+			case t.cnt == 0:
+				c.Bad("C04.ops", fnName+"/"+item, t.pos, nil, "the %s arm of %s contains no `%s` operation", item, fnName, want)
+			default:
+				c.OK("C04.ops", fnName+"/"+item, t.pos, "all %d operations in the arm are `%s`", t.cnt, want)
 			}
 		}
 	}
@@ -729,25 +776,70 @@ func c04ops(c *an.Ctx) {
 		})
 		c.Check(okDef && len(wrong) == 0 && cnt >= 12, "C04.ops", "(*Runtime).evalAdditiveExpression/+-", f.Pos(), fmt.Sprintf("all %d additive operations use + under isAdditive and - otherwise", cnt),
 			fmt.Sprintf("evalAdditiveExpression computes %v on the wrong side of isAdditive (or isAdditive is not `operator == itemAdd`)", wrong))
-		// string minus is an error: under kind == reflect.String, !isAdditive reaches a no-return call before the concatenation
-		okStr := false
+		// string minus is an error: every string concatenation is reached only on paths on which the
+		// operator is known to be + (the `-` paths end in a call that never returns before it)
+		var addDef ast.Expr
 		an.InspectOwn(f, func(m ast.Node) bool {
-			is, ok := m.(*ast.IfStmt)
-			if !ok || strings.ReplaceAll(an.Str(is.Cond), " ", "") != "kind==reflect.String" {
-				return true
-			}
-			if len(is.Body.List) > 0 {
-				if inner, ok := is.Body.List[0].(*ast.IfStmt); ok && strings.ReplaceAll(an.Str(inner.Cond), " ", "") == "!isAdditive" && len(inner.Body.List) == 1 {
-					if es, ok := inner.Body.List[0].(*ast.ExprStmt); ok {
-						if call, ok := es.X.(*ast.CallExpr); ok && p.CallNeverReturns(info, call) {
-							okStr = true
-						}
+			an.Assigns(m, func(lhs, rhs ast.Expr, _ token.Token) {
+				if an.Str(lhs) == "isAdditive" && rhs != nil && addDef == nil && p.OwnerFn(lhs.Pos()) == f {
+					addDef = lhs // the flag itself: a test of it and this probe are the same atom
+				}
+			})
+			return true
+		})
+		concat := map[*ast.BinaryExpr]bool{}
+		an.InspectOwn(f, func(m ast.Node) bool {
+			if b, ok := m.(*ast.BinaryExpr); ok && b.Op == token.ADD {
+				if tv, ok := info.Types[b]; ok && tv.Value == nil && tv.Type != nil {
+					if bt, ok := tv.Type.Underlying().(*types.Basic); ok && bt.Info()&types.IsString != 0 {
+						concat[b] = true
 					}
 				}
 			}
 			return true
 		})
-		c.Check(okStr, "C04.ops", "(*Runtime).evalAdditiveExpression/string-minus", f.Pos(), "`-` on a string is an error", "`string - x` is not rejected before the concatenation: it silently concatenates")
+		switch {
+		case addDef == nil:
+			c.Bad("C04.ops", "(*Runtime).evalAdditiveExpression/string-minus", f.Pos(), nil, "evalAdditiveExpression does not record whether its operator is + : `string - x` cannot be told from `string + x`")
+		case len(concat) == 0:
+			c.Anchor("C04.ops", "string concatenation in evalAdditiveExpression")
+		default:
+			badAt := token.NoPos
+			var trail []string
+			reached := 0
+			hooks := an.Hooks{Stmt: func(x *an.Explorer, n ast.Node, st *an.State) {
+				if _, isCond := n.(ast.Expr); !isCond {
+					if _, isStmt := n.(ast.Stmt); !isStmt {
+						return
+					}
+				}
+				ast.Inspect(n, func(k ast.Node) bool {
+					if _, isLit := k.(*ast.FuncLit); isLit {
+						return false
+					}
+					if b, ok := k.(*ast.BinaryExpr); ok && concat[b] {
+						reached++
+						if v, known := x.Truth(addDef, st); !(known && v) && !badAt.IsValid() {
+							badAt, trail = b.Pos(), an.Facts(st)
+						}
+					}
+					return true
+				})
+			}}
+			x := p.NewExplorer(f, hooks)
+			x.Run(nil)
+			c.States += x.Visited
+			switch {
+			case x.Undecided != "":
+				c.Undecided("C04.ops", "(*Runtime).evalAdditiveExpression/string-minus", f.Pos(), "%s", x.Undecided)
+			case reached == 0:
+				c.Undecided("C04.ops", "(*Runtime).evalAdditiveExpression/string-minus", f.Pos(), "no string concatenation was reached by the exploration")
+			case badAt.IsValid():
+				c.Bad("C04.ops", "(*Runtime).evalAdditiveExpression/string-minus", badAt, trail, "`string - x` is not rejected before the concatenation: it silently concatenates")
+			default:
+				c.OK("C04.ops", "(*Runtime).evalAdditiveExpression/string-minus", f.Pos(), "`-` on a string is an error: every concatenation is reached only when the operator is +")
+			}
+		}
 	}
 	// equality: != is the negation of ==
 	if f := c.Fn("C04.ops", "(*Runtime).evalComparativeExpression"); f != nil {
@@ -868,35 +960,55 @@ func c04kinds(c *an.Ctx) {
 			return true
 		})
 		c.Check(okDef, "C04.kinds", fnName+"/promotion-def", f.Pos(), "float promotion is exactly `left is not a float and right is`", fnName+": needFloatPromotion is not !isFloat(left kind) && isFloat(right kind)")
-		// every int/uint arm of a non-% operator consults needFloatPromotion
-		if fnName != "(*Runtime).evalAdditiveExpression" {
-			var missing []string
+		// wherever the right operand is read integrally (toInt / toUint) for an operator other than %, float
+		// promotion is known not to be needed on that path: `int op float` is never computed integrally
+		{
+			var probe ast.Expr
+			probes := map[*an.Fn]ast.Expr{} // the flag of the function a read belongs to (helpers keep their own)
 			an.InspectOwn(f, func(n ast.Node) bool {
-				cc, ok := n.(*ast.CaseClause)
-				if !ok || len(cc.List) != 1 {
-					return true
-				}
-				item := an.Str(cc.List[0])
-				if item == "itemMod" {
-					return true
-				}
-				for _, g := range []string{"isInt(kind)", "isUint(kind)"} {
-					found := false
-					armInspect(f, cc, func(m ast.Node) bool {
-						if is, ok := m.(*ast.IfStmt); ok && strings.ReplaceAll(an.Str(is.Cond), " ", "") == g && len(is.Body.List) == 1 {
-							if inner, ok := is.Body.List[0].(*ast.IfStmt); ok && an.Str(inner.Cond) == "needFloatPromotion" && inner.Else != nil {
-								found = true
-							}
+				an.Assigns(n, func(lhs, rhs ast.Expr, _ token.Token) {
+					if an.Str(lhs) == "needFloatPromotion" && rhs != nil {
+						if probe == nil {
+							probe = lhs
 						}
-						return true
-					})
-					if !found {
-						missing = append(missing, item+"/"+g)
+						if o := p.OwnerFn(lhs.Pos()); o != nil && probes[o] == nil {
+							probes[o] = lhs
+						}
 					}
-				}
+				})
 				return true
 			})
-			c.Check(len(missing) == 0, "C04.kinds", fnName+"/promotion-used", f.Pos(), "every int/uint arm promotes to float when the right operand is a float", fmt.Sprintf("%s: arms %v do not consult needFloatPromotion: `int op float` is computed integrally there", fnName, missing))
+			var missing []string
+			reached := 0
+			if probe != nil {
+				x := p.NewExplorer(f, an.Hooks{Call: func(x *an.Explorer, call *ast.CallExpr, st *an.State) {
+					name := an.CalleeName(info, call)
+					if name != "jet.toInt" && name != "jet.toUint" {
+						return
+					}
+					if inModArm(f, call) {
+						return
+					}
+					reached++
+					pr := probe
+					if o := p.OwnerFn(call.Pos()); o != nil && probes[o] != nil {
+						pr = probes[o]
+					}
+					if v, known := x.Truth(pr, st); !known || v {
+						missing = append(missing, fmt.Sprintf("%s (%s)", an.Str(call), p.RelPos(call.Pos())))
+					}
+				}})
+				x.Run(nil)
+				c.States += x.Visited
+				if x.Undecided != "" {
+					c.Undecided("C04.kinds", fnName+"/promotion-used", f.Pos(), "%s", x.Undecided)
+					continue
+				}
+			}
+			sort.Strings(missing)
+			missing = uniqStrings(missing)
+			c.Check(probe != nil && reached > 0 && len(missing) == 0, "C04.kinds", fnName+"/promotion-used", f.Pos(), "every integral reading of the right operand lies on a path where float promotion is known not to be needed",
+				fmt.Sprintf("%s: %v read the right operand integrally on a path where needFloatPromotion may be true: `int op float` is computed integrally there", fnName, missing))
 		}
 	}
 	c.Expect("C04.kinds", "kind-guarded branches", nBranches, 25)
@@ -907,20 +1019,39 @@ func c04kinds(c *an.Ctx) {
 			continue
 		}
 		info := f.Info()
-		ok := true
-		an.InspectOwn(f, func(n ast.Node) bool {
-			if ret, isRet := n.(*ast.ReturnStmt); isRet && len(ret.Results) == 1 {
+		// every value the function returns — directly, or through a helper whose result it returns — is
+		// reflect.ValueOf(<bool>)
+		var boolResults func(g *an.Fn, depth int) bool
+		boolResults = func(g *an.Fn, depth int) bool {
+			ok := depth < 4
+			an.InspectBody(g, func(n ast.Node) bool {
+				ret, isRet := n.(*ast.ReturnStmt)
+				if !isRet || len(ret.Results) != 1 {
+					return true
+				}
 				call, isCall := an.Unparen(ret.Results[0]).(*ast.CallExpr)
-				if !isCall || an.CalleeName(info, call) != "reflect.ValueOf" {
+				if !isCall {
+					ok = false
+					return true
+				}
+				if h := p.NewHelperCallee(g, call); h != nil {
+					if !boolResults(h, depth+1) {
+						ok = false
+					}
+					return true
+				}
+				if an.CalleeName(info, call) != "reflect.ValueOf" {
 					ok = false
 					return true
 				}
 				if bt, isB := info.Types[call.Args[0]].Type.Underlying().(*types.Basic); !isB || bt.Info()&types.IsBoolean == 0 {
 					ok = false
 				}
-			}
-			return true
-		})
+				return true
+			})
+			return ok
+		}
+		ok := boolResults(f, 0)
 		c.Check(ok, "C04.kinds", fnName+"/bool-result", f.Pos(), "always yields a Go bool", fnName+" can return something other than reflect.ValueOf(<bool>)")
 	}
 }
@@ -1227,4 +1358,14 @@ func c04roles(c *an.Ctx) {
 			an.SetRole(info, root, o, r)
 		}
 	}
+}
+
+func uniqStrings(in []string) []string {
+	var out []string
+	for i, v := range in {
+		if i == 0 || v != in[i-1] {
+			out = append(out, v)
+		}
+	}
+	return out
 }
